@@ -54,6 +54,13 @@ var jobTable = map[string]jobSet{
 			// chunked messages whose Recv calls time out between chunks and
 			// are retried (the contents must still come out unaltered)
 			{Scenario: "chunkto/c=2/lens=5,3/rt=500ms", Budgets: bs(B(0, 2)), Split: 1},
+			// faults during the handshake and an application that starts
+			// sending later (a restarted server handshake is completed by
+			// the client's first DATA packet)
+			{Scenario: "uni/N=2/k=3/hsfaults/pre=3s", Budgets: bs(B(0, 2)), Split: 1},
+			// a receiving application that starts late: more than a window
+			// of messages arrives before the first Recv
+			{Scenario: "uni/N=2/k=6/rpre=4s", Budgets: bs(B(0, 1)), Split: 1},
 		},
 		thorough: []Job{
 			{Scenario: "chunkto/c=2/lens=5,3/rt=500ms", Budgets: bs(B(1, 1), B(0, 3)), Split: 2},
@@ -210,6 +217,9 @@ func init() {
 			// keepalive pings (which consume sequence numbers) during an idle
 			// gap between two bursts, ping interval below the resend timeout
 			{Scenario: "burst2/N=2/k=2", Budgets: bs(B(0, 2)), Split: 1},
+			// a receiving application that starts late (back-pressure: more
+			// than a window of messages arrives before the first Recv)
+			{Scenario: "prog/N=2/k=6/rpre=4s", Budgets: bs(B(0, 1)), Split: 1},
 			{Scenario: "prog/N=1/k=3", Budgets: bs(B(1, 1), B(0, 3)), Split: 1},
 			{Scenario: "prog/N=2/k=4", Budgets: bs(B(1, 1), B(0, 2)), Split: 1},
 			{Scenario: "prog/kind=bidi/N=2/k=2", Budgets: bs(B(1, 1), B(0, 2)), Split: 1},
